@@ -20,7 +20,9 @@ RULE = (
     "0-3 current injections and dt in [1e-4,10] ms. Every (solver, voltage_solver) pair is stepped once "
     "through build_init_and_step_fn and one drawn pair also through jx.integrate; each returned voltage vector "
     "is one oracle evaluation against the dense NumPy reference R1 (componentwise backward error and a "
-    "condition-number-scaled forward bound), plus pairwise agreement of the backends. Non-trivial: (>=1 "
+    "condition-number-scaled forward bound), plus pairwise agreement of the backends. In a third of the cases a sibling "
+    "model (same tree, one branch re-discretised within the padded layout) is stepped first in the same process: "
+    "nothing the solvers keep from it may change the judged result. Non-trivial: (>=1 "
     "branch point and >=2 distinct compartment counts) or >=2 cells; distinct = hash(structure, solver, backend)."
 )
 ASSUMPTIONS = [
@@ -62,7 +64,20 @@ def _spec(draw, tier):
     stim = [[draw(st.integers(0, N - 1)), draw(fl(-5.0, 5.0))] for _ in range(nst)]
     dt = draw(st.one_of(st.sampled_from([0.025, 0.1, 1.0]), gm.log_uniform(1e-4, 10.0)))
     cfg = [draw(st.sampled_from(SOLVERS[:2] * 2 + SOLVERS[2:])), draw(st.sampled_from(BACKENDS))]
-    return {"morph": morph, "leak": leak, "stim": stim, "dt": dt, "integrate_cfg": cfg}
+    spec = {"morph": morph, "leak": leak, "stim": stim, "dt": dt, "integrate_cfg": cfg}
+    # history in the process: sometimes a *sibling* model (same tree, one branch with another compartment count that
+    # does not exceed the other branches', so that padded layouts coincide) is stepped first; whatever the solvers
+    # remember from it (caches keyed by layout, module-level state) must not leak into the judged model
+    multi = [ci for ci, c in enumerate(morph["cells"]) if len(c["ncomp"]) >= 2]
+    if multi and draw(st.integers(0, 2)) == 0:
+        ci = draw(st.sampled_from(multi))
+        nc = morph["cells"][ci]["ncomp"]
+        bi = draw(st.integers(0, len(nc) - 1))
+        top = max(n for j, n in enumerate(nc) if j != bi)
+        cands = [n for n in range(1, top + 1) if n != nc[bi]]
+        if cands:
+            spec["warmup"] = {"cell": ci, "branch": bi, "n": draw(st.sampled_from(cands))}
+    return spec
 
 
 def strategy(tier):
@@ -98,6 +113,30 @@ def build(spec):
     m = build_module(spec["morph"])
     insert_leak(m, spec["leak"])
     return m
+
+
+def sibling_spec(spec):
+    """The warm-up model: same tree and parameters, one branch re-discretised (uniform copy of its first compartment)."""
+    import copy
+
+    w = spec["warmup"]
+    m = copy.deepcopy(spec["morph"])
+    rows = gm.rows(spec["morph"])
+    m["cells"][w["cell"]]["ncomp"][w["branch"]] = int(w["n"])
+    # position of the branch among all branches (rows carry the global branch index in column 1)
+    first = [i for i, r in enumerate(rows) if r[0] == w["cell"]]
+    gb = sorted({rows[i][1] for i in first})[w["branch"]]
+    for key in ("radius", "length", "axial_resistivity", "capacitance", "v"):
+        vals, done = [], False
+        for i, r in enumerate(rows):
+            if r[1] == gb:
+                if not done:
+                    vals.extend([spec["morph"][key][i]] * int(w["n"]))
+                    done = True
+            else:
+                vals.append(spec["morph"][key][i])
+        m[key] = vals
+    return {"morph": m, "leak": {"rows": [], "g": [], "e": []}, "stim": [], "dt": spec["dt"], "integrate_cfg": spec["integrate_cfg"]}
 
 
 def one_step_stepfn(m, spec, solver, backend):
@@ -145,6 +184,13 @@ def judge(spec, tier="quick"):
         out.violate("build-raises", f"building the model raised {err.short()}", etype=err.etype, frame=err.frame)
         return out
     out.classes.extend(gm.structure_classes(spec["morph"]))
+    if spec.get("warmup"):
+        sib = sibling_spec(spec)
+        ms, e0 = core.call(build, sib)
+        if not e0:
+            for backend in BACKENDS[:2]:
+                core.call(one_step_stepfn, ms, sib, "bwd_euler", backend)  # result not judged here
+            out.classes.append("sibling stepped first")
     if dt > 1:
         out.classes.append("dt>1")
     nontriv = gm.is_nontrivial_structure(spec["morph"])
